@@ -1,4 +1,5 @@
 import FpgoVerif.Proofs.C19Desc
+import FpgoVerif.Proofs.C19Heap
 /-! Property theorems for C19 — "Sorting yields an ordered, stable permutation; descriptors sort by key
     list".  All statements are about the definitions of `Model/C19.lean` that the driver executes.
 
@@ -150,9 +151,28 @@ theorem C19_sortedList (ds : List (Desc α)) (l : List α) :
     let (r, after) := sortedListBySortDescriptors ds l
     r.Perm l ∧ r.Pairwise (fun a b => lexLt ds b a = false) ∧
     (∀ x, r.filter (equivBy (lexLt ds) x) = l.filter (equivBy (lexLt ds) x)) ∧ after = l := by
-  simp only [sortedListBySortDescriptors, sortBySortDescriptors, sort, descLess_eq_lexLt]
+  rw [sortedListBySortDescriptors_eq, descLess_eq_lexLt]
   exact ⟨sortBy_perm _ l, sortBy_pairwise (lexLt_strictWeak ds) l,
-    sortBy_filter_equiv (lexLt_strictWeak ds) l, trivial⟩
+    sortBy_filter_equiv (lexLt_strictWeak ds) l, rfl⟩
+
+/-- "without modifying the input", at the level of slices and backing arrays: for ANY heap and any
+    well-formed caller slice, `result := append(input[:0:0], input...)` + in-place sort leaves every
+    slice of every pre-existing backing array (the caller's `input` and all its aliases) reading as
+    before, and the returned slice holds the sorted copy. -/
+theorem C19_sortedList_heap (ds : List (Desc α)) (h : Heap α) (input : Slice)
+    (hwf : input.off + input.len ≤ (h.getD input.arr []).length) :
+    (sortedListH ds h input).1.read (sortedListH ds h input).2 = sortBy (descLess ds) (h.read input) ∧
+    ∀ s' : Slice, s'.arr < h.length → (sortedListH ds h input).1.read s' = h.read s' :=
+  sortedListH_spec ds h input hwf
+
+/-- the capacity in `input[:0:0]` matters: with `input[:0]` the "copy" aliases the input and the
+    caller's slice is sorted in place (a concrete heap). -/
+theorem C19_alias_variant_modifies_input :
+    let ds : List (Desc Int) := [⟨fun r => some (.oi r), true⟩]
+    let input : Slice := ⟨0, 0, 2, 2⟩
+    (sortedListAliasH ds [[2, 1]] input).1.read input = [1, 2] ∧ Heap.read [[2, 1]] input = [2, 1] := by
+  simp [sortedListAliasH, Heap.append, Slice.emptyKeepCap, Heap.read, Heap.write, sortH, sort, descLess_eq_lexLt,
+    sortBy, List.mergeSort, List.MergeSort.Internal.splitInTwo, lexLt, Desc.keyLt, optLt, Key.lt]
 
 /-- `SortBySortDescriptors` / `builder.Sort`: the same, in place. -/
 theorem C19_sortInPlace (ds : List (Desc α)) (l : List α) :
@@ -163,6 +183,11 @@ theorem C19_sortInPlace (ds : List (Desc α)) (l : List α) :
   exact ⟨sortBy_perm _ l, sortBy_pairwise (lexLt_strictWeak ds) l, sortBy_filter_equiv (lexLt_strictWeak ds) l⟩
 
 /-! ## non-vacuity -/
+
+/-- a well-formed caller slice that is a window of a larger array with an alias next to it -/
+example : (⟨0, 1, 2, 3⟩ : Slice).off + (⟨0, 1, 2, 3⟩ : Slice).len ≤ ((([[5, 3, 4, 1]] : Heap Nat)).getD 0 []).length := by
+  decide
+
 
 /-- a comparator with ties that is a strict weak order: parity -/
 example : StrictWeak (fun a b : Nat => decide (a % 2 < b % 2)) :=
@@ -178,7 +203,7 @@ example :
     let ds : List (Desc (Int × List Nat)) :=
       [⟨fun r => some (.oi r.1), false⟩, ⟨fun r => some (.cs r.2), true⟩]
     (sortedListBySortDescriptors ds recs).1 = [(50, [65, 66]), (30, [65, 68]), (30, [66, 67])] := by
-  simp [sortedListBySortDescriptors, sortBySortDescriptors, sort, descLess_eq_lexLt, sortBy, List.mergeSort,
+  simp [sortedListBySortDescriptors_eq, descLess_eq_lexLt, sortBy, List.mergeSort,
     List.MergeSort.Internal.splitInTwo, lexLt, Desc.keyLt, optLt, Key.lt, bytesLt]
 
 /-- nil keys come first for an ascending descriptor and ties among them are broken by the next one -/
